@@ -59,6 +59,14 @@ func genC04(t *rapid.T) c04Case {
 		if big {
 			o.MaxNodes, o.MaxKids = 200, 5
 		}
+		// namespace prefixes on some elements: an unprefixed name test must not select a prefixed element of the
+		// same local name (and vice versa)
+		o.Namespaces = rapid.IntRange(0, 9).Draw(t, "namespaces") < 3
+		// values with quote characters: predicates then carry literals with the other quote inside ([b="x'y"])
+		if rapid.IntRange(0, 9).Draw(t, "quotedValues") < 3 {
+			o.Texts = []string{"x", "xx", "y", "x'y", "it's", "say \"hi\"", "\"", "'", "a]b", "[x"}
+			o.AttrValues = []string{"0", "1", "2", "a'b", "\"1\"", "1]"}
+		}
 		d := gen.DrawXMLDoc(t, o)
 		c.Doc = d.Render()
 		var targets []gen.StreamTarget
@@ -402,6 +410,10 @@ func checkC04(c c04Case) obs.Result {
 		return obs.Violationf("well-formed %s document rejected when loaded completely: %v\ndoc=%q", c.Format, err, c.Doc)
 	}
 	if msg := c04Faithful(c, doc); msg != "" {
+		if strings.Contains(msg, "prefix differs") && obs.KnownOpen("c08-xml-one-uri-two-prefixes") {
+			// open known finding of C08 (one namespace URI under two prefixes): the whole-document side cannot serve as reference here
+			return obs.Result{Excluded: "whole-document tree shows the known C08 prefix defect"}
+		}
 		return obs.Violationf("the completely loaded tree does not represent the document (C08's subject; C04 cannot be judged on it): %s\ndoc=%q", msg, c.Doc)
 	}
 	exp, err := c04Expected(c, doc)
